@@ -194,9 +194,11 @@ func RunHBFree(cfg RConfig, workers []*RWorker) *ROutcome {
 			}
 		}
 		var parked, nonSpin []*RWorker
+		var state []string
 		for _, w := range workers {
 			st, pt := w.peek()
 			if st == rParked {
+				state = append(state, w.Name+"@"+pt)
 				parked = append(parked, w)
 				if !isSpinning(w, pt) {
 					nonSpin = append(nonSpin, w)
@@ -206,6 +208,7 @@ func RunHBFree(cfg RConfig, workers []*RWorker) *ROutcome {
 		if len(parked) == 0 {
 			break
 		}
+		stats.state(strings.Join(state, ";"))
 		cand := nonSpin
 		if len(cand) == 0 {
 			cand = parked
